@@ -1418,6 +1418,19 @@ REF_FCN static REF_STATUS ref_part_bin_ugrid(REF_GRID *ref_grid_ptr,
       if (swap_endian) SWAP_INT(single);
       nhex = single;
     }
+    { /* the declared counts must fit the file before they size or seek */
+      REF_FILEPOS end_of_file;
+      REIS(0, fseeko(file, 0, SEEK_END), "seek end");
+      end_of_file = ftello(file);
+      REIS(0, fseeko(file, 7 * ibyte, SEEK_SET), "seek back to nodes");
+      RAS(0 <= nnode && nnode <= end_of_file / 24 && 0 <= ntri &&
+              ntri <= end_of_file / (4 * ibyte) && 0 <= nqua &&
+              nqua <= end_of_file / (5 * ibyte) && 0 <= ntet &&
+              ntet <= end_of_file / (4 * ibyte) && 0 <= npyr &&
+              npyr <= end_of_file / (5 * ibyte) && 0 <= npri &&
+              npri <= end_of_file / (6 * ibyte) && 0 <= nhex &&
+              nhex <= end_of_file / (8 * ibyte), "ugrid count exceeds file");
+    }
   }
 
   RSS(ref_mpi_bcast(ref_grid_mpi(ref_grid), &nnode, 1, REF_LONG_TYPE), "bcast");
